@@ -19,7 +19,7 @@ EVENT_KEYS = ("p", "a", "o", "old", "new", "ok", "spur", "obs", "done")
 class ConcSpec:
     def __init__(self, name, scenario, grid, inv_props, primary, mc_cfgs=(), paths_cfg=None, trace_cfg=None,
                  dfs_max=20000, rand_execs=0, preempt=None, scen_keys=None, trace_workers=1, gen_module=None,
-                 rand_grid=None, paths_max=4000, trace_timeout=900, tail_execs=40, replay_logical=(), replay_skip_none=False):
+                 rand_grid=None, paths_max=4000, trace_timeout=900, tail_execs=40, replay_logical=(), replay_skip_none=False, tail_boost=(), tail_boost_execs=400, tail_boost_preempt=1):
         self.name = name
         self.scenario = scenario
         self.grid = grid
@@ -37,6 +37,9 @@ class ConcSpec:
         self.paths_max = paths_max
         self.trace_timeout = trace_timeout
         self.tail_execs = tail_execs
+        self.tail_boost = list(tail_boost)  # grid entries whose interesting window is a plain-code tail: more tail-split runs
+        self.tail_boost_execs = tail_boost_execs
+        self.tail_boost_preempt = tail_boost_preempt
         self.replay_skip_none = replay_skip_none  # "none" events (plain code before the first operation) consume no decision
         self.replay_logical = set(replay_logical)  # object names the specification uses logically (bound at first use)
 
@@ -117,20 +120,27 @@ def collect_traces(rep, spec, exe, tier, seed):
                 ex = [e for e in ex if e and e[-1].get("e") == "end"]
             execs.extend(ex)
     # tail-split runs: preemption right after a visible operation, judged by the abstract monitors only
+    tail_jobs = []
     if spec.tail_execs > 0:
         for i, params in enumerate(list(spec.grid) + list(grid if spec.rand_execs > 0 else [])):
-            lines, summary, crashed, err = core.run_vrt(exe, spec.scenario, params, mode="rand", max_execs=spec.tail_execs,
-                                                        seed=seed * 7919 + i, tailsplit=2)
-            ex = core.split_execs(lines)
-            if crashed:
-                crash = lines[-1] if lines and lines[-1].get("e") == "crash" else {}
-                rep.violation("crash/%s/%s" % (spec.scenario, params_key(params)),
-                              "the harness process died while executing a schedule of scenario %s %s that preempts a thread "
-                              "between a visible operation and the plain code after it" % (spec.scenario, params_key(params)),
-                              {"scenario": spec.scenario, "params": params, "choices": crash.get("choices"),
-                               "sched": crash.get("sched"), "tailsplit": 2})
-                ex = [e for e in ex if e and e[-1].get("e") == "end"]
-            execs.extend(ex)
+            if params not in spec.tail_boost:
+                tail_jobs.append((params, dict(mode="rand", max_execs=spec.tail_execs, seed=seed * 7919 + i, tailsplit=2)))
+    for params in spec.tail_boost:
+        # the interesting window is a plain-code tail: every schedule with one tail split and a few preemptions
+        tail_jobs.append((params, dict(mode="dfs", max_execs=spec.tail_boost_execs, seed=seed, preempt=spec.tail_boost_preempt,
+                                       tailsplit=1)))
+    for params, kw in tail_jobs:
+        lines, summary, crashed, err = core.run_vrt(exe, spec.scenario, params, **kw)
+        ex = core.split_execs(lines)
+        if crashed:
+            crash = lines[-1] if lines and lines[-1].get("e") == "crash" else {}
+            rep.violation("crash/%s/%s" % (spec.scenario, params_key(params)),
+                          "the harness process died while executing a schedule of scenario %s %s that preempts a thread "
+                          "between a visible operation and the plain code after it" % (spec.scenario, params_key(params)),
+                          {"scenario": spec.scenario, "params": params, "choices": crash.get("choices"),
+                           "sched": crash.get("sched"), "tailsplit": kw["tailsplit"]})
+            ex = [e for e in ex if e and e[-1].get("e") == "end"]
+        execs.extend(ex)
     return execs
 
 
